@@ -195,6 +195,18 @@ def run(chk):
         # was in before that step (outcome, stored credentials, every request with its payload); the replies differ from
         # step to step (new access token, renamed / switched profile), and errors in the middle leave no trace
         def perform(tok, op):
+            # every operation returns: run on a helper thread with a bound, so that one that never returns is reported as such
+            import reent
+            r = reent.bounded(lambda: perform_(tok, op), 10.0)
+            if r[0] == 'hang':
+                chk.violation('sequence', 'sequence:hang:%s' % op[0], {'case': {'operation': list(op)}, 'observed': 'no return within 10 s'},
+                              '%s on a token that had been through earlier operations does not return (no answer within 10 s, no request reached the service)' % op[0])
+                raise common.StopCheck()
+            if r[0] == 'raised':
+                raise r[1]
+            return r[1]
+
+        def perform_(tok, op):
             del stub.requests[:]
             try:
                 if op[0] == 'authenticate':
